@@ -18,6 +18,7 @@ import (
 	"sync"
 
 	"github.com/dolthub/dolt/go/cmd/dolt/cli"
+	"github.com/dolthub/dolt/go/libraries/doltcore/dbfactory"
 	"github.com/dolthub/dolt/go/libraries/doltcore/doltdb"
 	"github.com/dolthub/dolt/go/libraries/doltcore/ref"
 	"github.com/dolthub/dolt/go/libraries/utils/filesys"
@@ -39,6 +40,7 @@ func init() {
 type Case struct {
 	c09.Case
 	Race      bool `json:"race"`
+	Grpc      bool `json:"grpc"`      // serve the remote over remotesapi (gRPC+HTTP, in-process remotesrv) instead of file://
 	Interrupt bool `json:"interrupt"` // interrupted-transfer schedule (interrupt.go) instead of the plain one
 }
 
@@ -118,7 +120,24 @@ func Run(raw json.RawMessage) (any, error) {
 		return nil, err
 	}
 	defer os.RemoveAll(dir)
-	url := "file://" + dir + "/remote"
+	// the file remote is reached through the pass-through "c35fail" scheme so that racing pushers can be made to
+	// rendezvous (interrupt.go); with no plan set it is the plain file:// store
+	url := "c35fail://" + dir + "/remote"
+	storeURL := "file://" + dir + "/remote" // where the remote's chunks live on disk (examined directly)
+	if !c.Grpc {
+		if err := dbfactory.PrepareDB(ctx, types.Format_DOLT, storeURL, nil); err != nil {
+			return nil, err
+		}
+	}
+	if c.Grpc {
+		base, stop, err := startRemoteSrv(dir)
+		if err != nil {
+			return nil, err
+		}
+		defer stop()
+		url = base + "/c35/remote"
+		storeURL = "file://" + dir + "/c35/remote"
+	}
 	if c.Interrupt {
 		o := &Obs{Graph: [][]int{}, Heads: []int{}, RemoteHas: []int{}, Points: []Point{}, Notes: []string{}, ScriptErrs: []string{}, RefsMatch: true, Closed: true}
 		o.NonFFRefuse, o.ForceOK, o.RaceOK = true, true, true
@@ -190,7 +209,7 @@ func Run(raw json.RawMessage) (any, error) {
 	o.Heads = []int{num[hMain], num[hOther]}
 
 	check := func(stage string, want map[string]hash.Hash) remoteView {
-		v := examineRemote(ctx, url)
+		v := examineRemote(ctx, storeURL)
 		if v.err != nil {
 			o.Notes = append(o.Notes, stage+": open remote: "+v.err.Error())
 			o.Closed = false
@@ -267,10 +286,16 @@ func Run(raw json.RawMessage) (any, error) {
 		hb := strings.TrimPrefix(strings.Trim(rows(cl, "select dolt_hashof('HEAD')"), "[]\"|"), "s:")
 		var wg sync.WaitGroup
 		var ea, eb string
+		if c.Grpc {
+			armBarrier(2) // both Commit RPCs reach the server with the same expected root
+		} else {
+			setPlan("barrier", 2) // both pushers have read the remote head before either updates it
+		}
 		wg.Add(2)
 		go func() { defer wg.Done(); ea = src.Exec("call dolt_push('origin','main')").Err }()
 		go func() { defer wg.Done(); eb = cl.Exec("call dolt_push('origin','main')").Err }()
 		wg.Wait()
+		setPlan("", 0)
 		if ea == "" {
 			o.RaceWinners++
 		}
